@@ -170,6 +170,15 @@ fn subst_tree<H: Hasher>(rep: &mut Report, name: &str, rng: &mut Rng, n: usize, 
             let r = guard(|| verify(&idx, &bl, &n2, proof.depth));
             expect_reject(rep, name, if idx.len() == 1 { "batch-node-appended:single-index" } else { "batch-node-appended" }, json!({"b": bctx, "vector": a}), r);
         }
+        // a whole node vector the tree's proof does not have (empty, or of the usual length),
+        // appended or inserted
+        for (what, v) in [("empty", vec![]), ("full", (0..proof.depth as usize).map(|_| other_digest::<H>(rng)).collect::<Vec<_>>())] {
+            let mut n2 = proof.nodes.clone();
+            let at = if rng.bool() { n2.len() } else { rng.usize(n2.len() + 1) };
+            n2.insert(at, v);
+            let r = guard(|| verify(&idx, &bl, &n2, proof.depth));
+            expect_reject(rep, name, "batch-node-vector-added", json!({"b": bctx, "at": at, "vector": what}), r);
+        }
         // two nodes of one vector swapped / two vectors swapped
         for a in 0..proof.nodes.len() {
             if proof.nodes[a].len() >= 2 && proof.nodes[a][0] != proof.nodes[a][1] {
@@ -298,7 +307,7 @@ fn subst_hasher<H: Hasher>(rep: &mut Report, name: &str, seed: u64, thorough: bo
 
 pub fn subst(args: &Args) {
     let mut rep = Report::new("C19", "c19_subst",
-        "honest single and batch openings of trees with 2..2^K distinct leaves x 6 hashers; every single substitution (leaf, each path/proof node, index -> every other in-range index (all for <= 64 leaves), out-of-range and duplicated indexes (adjacent and not), swapped indexes, swapped nodes, a surplus node appended to a proof vector (single-index batches included), missing leaf, dropped opening, depth, root) must be rejected; evaluation = one substitution; distinct = trees");
+        "honest single and batch openings of trees with 2..2^K distinct leaves x 6 hashers; every single substitution (leaf, each path/proof node, index -> every other in-range index (all for <= 64 leaves), out-of-range and duplicated indexes (adjacent and not), swapped indexes, swapped nodes, a surplus node appended to a proof vector (single-index batches included), a surplus node vector added, missing leaf, dropped opening, depth, root) must be rejected; evaluation = one substitution; distinct = trees");
     let (seed, thorough) = (args.seed(), args.thorough());
     subst_hasher::<Blake3_256<f64m::BaseElement>>(&mut rep, "Blake3_256", seed, thorough, false);
     subst_hasher::<Blake3_192<f62::BaseElement>>(&mut rep, "Blake3_192", seed, thorough, false);
